@@ -32,6 +32,12 @@ ContBox(cont, stroke, sw, k, ws, tr) ==
     \* group { group { rect } , path }
     [] cont = "nested"  -> Union(ShapeBox(RectBox, stroke, sw, k, ws, tr),
                                  ShapeBox(Union(PathBox, Path2Box), "red", R(2), k, ws, tr))
+\* <use href="#rect" x="10" y="20" transform="scale(k)">: the referenced rect drawn through translate(10,20) then scale(k)
+ShiftBox(b, dx, dy) == <<RAdd(b[1], dx), RAdd(b[2], dy), RAdd(b[3], dx), RAdd(b[4], dy)>>
+UseBox(stroke, sw, k, ws, tr) ==
+  LET geo == IF tr THEN ScaleBox(ShiftBox(RectBox, R(10), R(20)), k) ELSE RectBox
+      d   == IF ws /\ stroke = "red" THEN RDiv(IF tr THEN RMul(sw, k) ELSE sw, R(2)) ELSE RZero
+  IN Grow(geo, d)
 Init ==
   \/ /\ kind = "bez"
      /\ \E n \in {3, 4}, axis \in {1, 2} : \E a \in [1..n -> 0..V] : arg = <<axis, a>> /\ exp = Bracket(a)
@@ -52,6 +58,10 @@ Init ==
            sw \in {R(3), Q(1, 2)}, k \in {R(1), R(2), Q(1, 2)}, ws \in BOOLEAN, tr \in BOOLEAN :
           /\ arg = <<cont, stroke, sw, k, ws, tr>>
           /\ exp = ContBox(cont, stroke, sw, k, ws, tr)
+  \/ /\ kind = "cont"       \* a use element (parsed document, not reified): the box of what it renders
+     /\ \E stroke \in {"none", "unset", "red"}, sw \in {R(3), Q(1, 2)}, k \in {R(1), R(2), Q(1, 2)}, ws \in BOOLEAN, tr \in BOOLEAN :
+          /\ arg = <<"use", stroke, sw, k, ws, tr>>
+          /\ exp = UseBox(stroke, sw, k, ws, tr)
 Next == UNCHANGED vars
 \* the bracket is well formed: minimum not above maximum, end points inside
 Sane == kind = "bez" =>
